@@ -72,7 +72,10 @@ static void add_all() {
     }
     {
         struct C { json doc; std::string before; Hold<json> r; };
-        for (auto q : {"$..y[?(@.z)].z", "$.b[*]", "$..[?(@ == 1)]", "$.a.y[0:2]"}) {
+        for (auto q : {"$..y[?(@.z)].z", "$.b[*]", "$..[?(@ == 1)]", "$.a.y[0:2]",
+                       // many evaluation temporaries (the evaluator's store of them grows several times) and heap-backed literals
+                       "$..[?(@ == 1 || @ == 2 || length(@) > 0 && length(@) < 9 || @ == 'a long string literal that needs the heap ........' || @ != 3 && @ != 4 && @ != 5)]",
+                       "$.a.y[?(length(@.z) >= 0 && length(@) > 0 || keys(@)[0] == 'z' || tokenize('a,b,c,d,e,f,g,h', ',')[7] == 'h')]"}) {
             std::string expr = q;
             Scenario s; s.name = "json_query " + expr;
             s.make = [] { C* c = new C; c->doc = json::parse(doc_text()); c->doc.dump(c->before); return (void*)c; };
@@ -89,7 +92,9 @@ static void add_all() {
             s.destroy = [](void* p) { delete (C*)p; };
             reg().list.push_back(s);
         }
-        for (auto q : {"a.y[?z].z", "b[*] | [0]", "sort_by(a.y[?z], &z)[].z", "{k: keys(a), v: length(b)}"}) {
+        for (auto q : {"a.y[?z].z", "b[*] | [0]", "sort_by(a.y[?z], &z)[].z", "{k: keys(a), v: length(b)}",
+                       // heap-backed literals (JSON literal, raw string) and many temporaries
+                       "[`{\"p\":[1,2,3,4,5,6,7,8],\"q\":\"a long string literal that needs the heap ........\"}`, 'another long raw string literal, also heap allocated .........', a.y[?z == `1` || z == 'a long string literal that needs the heap ........'], keys(a), values(a), length(b), to_string(a), join(',', ['x','y'])]"}) {
             std::string expr = q;
             Scenario s; s.name = "jmespath::search " + expr;
             s.make = [] { C* c = new C; c->doc = json::parse(doc_text()); c->doc.dump(c->before); return (void*)c; };
